@@ -57,9 +57,9 @@ std::thread_local! {
     static DIRTY_UP_AFTER_ATTACH: Cell<bool> = const { Cell::new(false) };
 }
 
-struct ModeGuard(bool, bool);
+pub struct ModeGuard(bool, bool);
 impl ModeGuard {
-    fn set(m: Mode) -> Self {
+    pub fn set(m: Mode) -> Self {
         let prev = ModeGuard(vh::exact_key_mode(), vh::quiet_hit_mode());
         vh::set_exact_key_mode(matches!(m, Mode::Exact | Mode::Quiet));
         vh::set_quiet_hit_mode(matches!(m, Mode::RealQuiet | Mode::Quiet));
